@@ -1,3 +1,4 @@
+import IbModel.Model.Io
 /-!
 # Model of the compression layer (C10)
 
@@ -14,8 +15,14 @@ entry point of `src/io/jsonl.rs`, `src/io/csv.rs`, `src/helpers/{jsonl,csv}.rs` 
   the format signature" are hypotheses of the theorems (`Lawful`), never axioms. `toy` is a concrete
   lawful instance used by the driver and by the non-vacuity examples.
 * `none` = the read fails with an error.
+* A reader source is a `Src` (bytes + read schedule); `File` / `Cursor` = `Src.full`. I/O errors of the
+  source itself (`ErrorKind::Interrupted`, failing reads) are not modelled.
+* Every writer / reader entry point has its own definition mirroring its Rust body; the format layer and
+  the shard arithmetic come from `IB.Io` (the model of property C09).
 
-`Legacy.*` = the code at the pinned commit `a2588b9` (before the `fix:` commits).
+`Legacy.*` = the code at the pinned commit `a2588b9` (before the `fix:` commits): bzip2 magic "BZ",
+parallel writers that never open the final file through `auto_detect_writer`, the cloud writer's
+`Path::extension` test, and `auto_detect_reader` deciding on ONE `fill_buf()` of the source.
 -/
 namespace IB.Compression
 
@@ -51,6 +58,24 @@ def detectExt (tbl : List CodecEntry) (path : List Char) : Option CodecEntry :=
   let p := lowerPath path
   tbl.find? (fun c => c.exts.any (fun e => e.toList.isSuffixOf p))
 
+/-! ## a `Read` and what `auto_detect_reader` peeks from it
+
+A `Read` is modelled by the bytes it will deliver and a *read schedule*: the `i`-th call `read(buf)`
+returns at most `sched[i] + 1` bytes (a `Read` may always return fewer bytes than asked for; `0` bytes
+for a non-empty buffer means end of stream, hence the `+ 1`). Calls beyond the schedule fill the buffer.
+`File` and `Cursor<Vec<u8>>` (the only sources the crate's own entry points use) have the empty
+schedule; a pipe / socket / chained reader may deliver its first byte alone (`sched = [0]`). -/
+structure Src where
+  data : Bytes
+  sched : List Nat
+  deriving Repr
+
+/-- one call `read(&mut buf)` with `buf.len() = cap`: the bytes returned and the source afterwards -/
+def Src.read (s : Src) (cap : Nat) : Bytes × Src :=
+  match s.sched with
+  | [] => (s.data.take cap, ⟨s.data.drop cap, []⟩)
+  | k :: ks => (s.data.take (min cap (k + 1)), ⟨s.data.drop (min cap (k + 1)), ks⟩)
+
 /-- capacity of the `BufReader` whose `fill_buf()` is peeked -/
 def bufCap : Nat := 8192
 
@@ -60,11 +85,36 @@ def magicMatches (buf : Bytes) (c : CodecEntry) : Bool :=
   | some m => decide (m.length ≤ buf.length) && m.isPrefixOf buf
   | none => false
 
-/-- `detect_from_magic`: peek the first buffer; empty → `None`; else the first codec (registry order)
-    whose magic bytes are a prefix of the buffer. -/
-def detectMagic (tbl : List CodecEntry) (bytes : Bytes) : Option CodecEntry :=
-  let buf := bytes.take bufCap
+/-- `detect_from_magic` on the buffer ONE `fill_buf()` returned: empty → `None`; else the first codec
+    (registry order) whose magic bytes are a prefix of the buffer. -/
+def detectMagic (tbl : List CodecEntry) (buf : Bytes) : Option CodecEntry :=
   if buf.isEmpty then none else tbl.find? (magicMatches buf)
+
+/-- `longest_magic()`: the length of the longest signature in the registry -/
+def magicLen (c : CodecEntry) : Nat := match c.magic with | some x => x.length | none => 0
+
+def headLen (tbl : List CodecEntry) : Nat := tbl.foldl (fun m c => max m (magicLen c)) 0
+
+/-- `read_head(reader, want)`: `while len < want { match reader.read(&mut head[len..]) { 0 => break, n => len += n } }`
+    (`fuel` iterations suffice: every iteration that does not break adds at least one byte).
+    Returns the collected head and the source after it. -/
+def readHead : Nat → Nat → Bytes → Src → Bytes × Src
+  | 0, _, acc, s => (acc, s)
+  | fuel + 1, want, acc, s =>
+    if acc.length < want then
+      let r := s.read (want - acc.length)
+      if r.1.isEmpty then (acc, s) else readHead fuel want (acc ++ r.1) r.2
+    else (acc, s)
+
+/-- first `fill_buf()` of `BufReader::new(Cursor::new(head).chain(rest))`: `Chain::read` serves the
+    cursor while it has bytes (ONE read never crosses into the second reader), else the rest -/
+def chainFirstFill (head : Bytes) (rest : Src) : Bytes :=
+  if head.isEmpty then (rest.read bufCap).1 else head.take bufCap
+
+/-- the buffer `detect_from_magic` looks at, the bytes already taken from the source, the source -/
+def peek (tbl : List CodecEntry) (s : Src) : Bytes × Bytes × Src :=
+  let hr := readHead (headLen tbl) (headLen tbl) [] s
+  (chainFirstFill hr.1 hr.2, hr.1, hr.2)
 
 /-- abstract codecs, keyed by codec name -/
 structure CodecImpl where
@@ -72,15 +122,42 @@ structure CodecImpl where
   decompress : String → Bytes → Option Bytes
 
 /-- which codec `auto_detect_reader` wraps the stream with: extension first, then magic bytes -/
-def readerCodec (tbl : List CodecEntry) (path : List Char) (bytes : Bytes) : Option CodecEntry :=
+def readerCodecSrc (tbl : List CodecEntry) (path : List Char) (s : Src) : Option CodecEntry :=
   match detectExt tbl path with
   | some c => some c
-  | none => detectMagic tbl bytes
+  | none => detectMagic tbl (peek tbl s).1
 
-/-- `auto_detect_reader` followed by reading the stream to its end -/
-def autoReader (K : CodecImpl) (tbl : List CodecEntry) (path : List Char) (bytes : Bytes) :
-    Option Bytes :=
-  match readerCodec tbl path bytes with
+/-- `auto_detect_reader(reader, path)` followed by reading the returned stream to its end.
+    Extension branch: the decoder wraps the reader itself. Magic branch: the decoder (or the
+    pass-through `BufReader`) wraps `head ++ rest`. -/
+def autoReaderSrc (K : CodecImpl) (tbl : List CodecEntry) (path : List Char) (s : Src) : Option Bytes :=
+  match detectExt tbl path with
+  | some c => K.decompress c.name s.data
+  | none =>
+    let p := peek tbl s
+    match detectMagic tbl p.1 with
+    | some c => K.decompress c.name (p.2.1 ++ p.2.2.data)
+    | none => some (p.2.1 ++ p.2.2.data)
+
+/-- a `File` / `Cursor` source: every `read` fills the buffer -/
+def Src.full (bytes : Bytes) : Src := ⟨bytes, []⟩
+
+/-- `auto_detect_reader(File::open(path)?, path)` / `auto_detect_reader(Cursor::new(data), key)` -/
+def autoReader (K : CodecImpl) (tbl : List CodecEntry) (path : List Char) (bytes : Bytes) : Option Bytes :=
+  autoReaderSrc K tbl path (Src.full bytes)
+
+def readerCodec (tbl : List CodecEntry) (path : List Char) (bytes : Bytes) : Option CodecEntry :=
+  readerCodecSrc tbl path (Src.full bytes)
+
+/-- closed form (proved equal for EVERY read schedule, `Proofs/Compression.lean`): the decision only
+    depends on the first `headLen tbl` bytes of the stream -/
+def readerCodecSpec (tbl : List CodecEntry) (path : List Char) (bytes : Bytes) : Option CodecEntry :=
+  match detectExt tbl path with
+  | some c => some c
+  | none => detectMagic tbl (bytes.take (headLen tbl))
+
+def autoReaderSpec (K : CodecImpl) (tbl : List CodecEntry) (path : List Char) (bytes : Bytes) : Option Bytes :=
+  match readerCodecSpec tbl path bytes with
   | some c => K.decompress c.name bytes
   | none => some bytes
 
@@ -108,74 +185,242 @@ def cloudWriter (K : CodecImpl) (key : List Char) (plain : Bytes) : Bytes :=
 
 /-! ## entry points
 
-Every entry point is "format layer ∘ compression layer". The format layer (serde_json / csv, shard
-arithmetic — property C09) produces or consumes the *plain* byte stream; what is modelled here is how
-each entry point pushes that stream through the compression layer. -/
+Every entry point is modelled by its OWN definition that mirrors what its Rust body does with the
+compression layer: which file handles it opens, which of them it passes through
+`auto_detect_writer` / `auto_detect_reader`, and what it writes to / parses from them. The format layer
+(serde_json / csv / `BufRead::lines`, shard arithmetic — the subject of property C09, whose model
+`IB.Io` is reused here) is a parameter:
 
-inductive Writer
-  | raw          -- `auto_detect_writer` used directly
-  | jsonlVec     -- `write_jsonl_vec`
-  | jsonlPar     -- `write_jsonl_par` (free function)
-  | csvVec       -- `write_csv_vec` / `write_csv`
-  | csvPar       -- `write_csv_par` (free function)
-  | pcJsonl      -- `PCollection::write_jsonl`      → `write_jsonl_vec`
-  | pcJsonlPar   -- `PCollection::write_jsonl_par`  → `write_jsonl_par`
-  | pcCsv        -- `PCollection::write_csv`        → `write_csv_vec`
-  | pcCsvPar     -- `PCollection::write_csv_par`    → `write_csv_vec`
-  | cloudJsonl   -- `write_cloud_jsonl_vec`
+* writers: `ser : ρ → Bytes` = the bytes of one record (JSONL: `to_writer` output; the writer adds
+  `\n`. CSV: one serialised record including its terminator), CSV `header : Bytes`;
+* readers: a `ReadFmt`: `lines` = `BufRead::lines()` / `csv::Reader::records()` (after the header) over
+  a PLAIN stream (`none` = the stream itself is not readable, e.g. invalid UTF-8), `blank`, `de`.
+
+`Option`: `none` = the call returns `Err` or panics. -/
+
+/-- `w.write_all(ser item); w.write_all(b"\n")` for every item -/
+def jsonlPlain {ρ : Type} (ser : ρ → Bytes) (rs : List ρ) : Bytes :=
+  (rs.map fun r => ser r ++ [10]).flatten
+
+/-- `write_jsonl_vec`: `File::create(path)`, `auto_detect_writer(f, path)`, every item, `flush` -/
+def writeJsonlVec {ρ : Type} (K : CodecImpl) (tbl : List CodecEntry) (ser : ρ → Bytes)
+    (path : List Char) (rs : List ρ) : Bytes :=
+  autoWriter K tbl path (jsonlPlain ser rs)
+
+/-- `write_jsonl_par` (current code). Empty data: the final file is opened through
+    `auto_detect_writer` and flushed. Otherwise every shard `data[start..end]` goes to its own part file
+    through a bare `BufWriter` (NOT the compression layer); then the final file is opened through
+    `auto_detect_writer(File::create(path), path)` and the part files are `io::copy`-ed into it in
+    shard order. Shard bounds: `IB.Io.jsonlShardBounds` (C09). -/
+def writeJsonlPar {ρ : Type} (K : CodecImpl) (tbl : List CodecEntry) (ser : ρ → Bytes)
+    (path : List Char) (rs : List ρ) (shards : Option Nat) (auto : Nat) : Option Bytes :=
+  if rs.length = 0 then some (autoWriter K tbl path [])
+  else (IB.Io.parWriteWith IB.Io.jsonlShardBounds rs shards auto).map fun parts =>
+    autoWriter K tbl path ((parts.map (jsonlPlain ser)).flatten)
+
+/-- `PCollection::write_jsonl`: `collect_seq()` (`rs` = what it returns) then `write_jsonl_vec` -/
+def pcWriteJsonl {ρ : Type} (K : CodecImpl) (tbl : List CodecEntry) (ser : ρ → Bytes)
+    (path : List Char) (rs : List ρ) : Bytes :=
+  writeJsonlVec K tbl ser path rs
+
+/-- `PCollection::write_jsonl_par`: `collect_seq()` then `write_jsonl_par` -/
+def pcWriteJsonlPar {ρ : Type} (K : CodecImpl) (tbl : List CodecEntry) (ser : ρ → Bytes)
+    (path : List Char) (rs : List ρ) (shards : Option Nat) (auto : Nat) : Option Bytes :=
+  writeJsonlPar K tbl ser path rs shards auto
+
+/-- `write_cloud_jsonl_vec`: the codec comes from the function's own `ends_with` chain; the
+    `compress_jsonl_<codec>` helpers push the same `item, "\n"` sequence through the encoder -/
+def writeCloudJsonl {ρ : Type} (K : CodecImpl) (ser : ρ → Bytes) (key : List Char) (rs : List ρ) : Bytes :=
+  cloudWriter K key (jsonlPlain ser rs)
+
+/-- what a `csv::Writer` with `has_headers(hdr)` emits for `rs` (header before the FIRST row only) -/
+def csvPlain {ρ : Type} (hdr : Bool) (header : Bytes) (ser : ρ → Bytes) (rs : List ρ) : Bytes :=
+  (IB.Io.csvWrite hdr header ser rs).flatten
+
+/-- `write_csv_vec` (and its alias `write_csv`): `auto_detect_writer(File::create(path), path)`
+    handed to the `csv::Writer` -/
+def writeCsvVec {ρ : Type} (K : CodecImpl) (tbl : List CodecEntry) (hdr : Bool) (header : Bytes)
+    (ser : ρ → Bytes) (path : List Char) (rs : List ρ) : Bytes :=
+  autoWriter K tbl path (csvPlain hdr header ser rs)
+
+/-- `write_csv_par` (current code). Empty data: wrapped, flushed. Otherwise every range of
+    `split_ranges` is serialised into an in-memory buffer (plain; only chunk 0 may emit the header);
+    then the final file is opened through `auto_detect_writer` and the buffers are written in order. -/
+def writeCsvPar {ρ : Type} (K : CodecImpl) (tbl : List CodecEntry) (hdr : Bool) (header : Bytes)
+    (ser : ρ → Bytes) (path : List Char) (rs : List ρ) (shards : Option Nat) (auto : Nat) : Option Bytes :=
+  if rs.length = 0 then some (autoWriter K tbl path [])
+  else (IB.Io.parWriteCsvParts hdr header ser rs shards auto).map fun bufs =>
+    autoWriter K tbl path ((bufs.map List.flatten).flatten)
+
+/-- `PCollection::write_csv`: `collect_seq()` then `write_csv_vec` -/
+def pcWriteCsv {ρ : Type} (K : CodecImpl) (tbl : List CodecEntry) (hdr : Bool) (header : Bytes)
+    (ser : ρ → Bytes) (path : List Char) (rs : List ρ) : Bytes :=
+  writeCsvVec K tbl hdr header ser path rs
+
+/-- `PCollection::write_csv_par`: `collect_par(shards, None)` (in-memory source: `IB.Io.collectParVec`)
+    then the SEQUENTIAL `write_csv_vec` -/
+def pcWriteCsvPar {ρ : Type} (K : CodecImpl) (tbl : List CodecEntry) (hdr : Bool) (header : Bytes)
+    (ser : ρ → Bytes) (path : List Char) (rs : List ρ) (partitions : Nat) : Bytes :=
+  writeCsvVec K tbl hdr header ser path (IB.Io.collectParVec rs partitions)
+
+/-- the JSONL writer entry points -/
+inductive JWriter
+  | vec                                       -- `write_jsonl_vec`
+  | par (shards : Option Nat) (auto : Nat)    -- `write_jsonl_par`
+  | pc                                        -- `PCollection::write_jsonl`
+  | pcPar (shards : Option Nat) (auto : Nat)  -- `PCollection::write_jsonl_par`
+  | cloud                                     -- `write_cloud_jsonl_vec`
   deriving DecidableEq, Repr
 
+/-- the CSV writer entry points -/
+inductive CWriter
+  | vec                                       -- `write_csv_vec` / `write_csv`
+  | par (shards : Option Nat) (auto : Nat)    -- `write_csv_par`
+  | pc                                        -- `PCollection::write_csv`
+  | pcPar (partitions : Nat)                  -- `PCollection::write_csv_par`
+  deriving DecidableEq, Repr
+
+def JWriter.run {ρ : Type} (K : CodecImpl) (tbl : List CodecEntry) (ser : ρ → Bytes) :
+    JWriter → List Char → List ρ → Option Bytes
+  | .vec, p, rs => some (writeJsonlVec K tbl ser p rs)
+  | .par sh a, p, rs => writeJsonlPar K tbl ser p rs sh a
+  | .pc, p, rs => some (pcWriteJsonl K tbl ser p rs)
+  | .pcPar sh a, p, rs => pcWriteJsonlPar K tbl ser p rs sh a
+  | .cloud, p, rs => some (writeCloudJsonl K ser p rs)
+
+def CWriter.run {ρ : Type} (K : CodecImpl) (tbl : List CodecEntry) (hdr : Bool) (header : Bytes)
+    (ser : ρ → Bytes) : CWriter → List Char → List ρ → Option Bytes
+  | .vec, p, rs => some (writeCsvVec K tbl hdr header ser p rs)
+  | .par sh a, p, rs => writeCsvPar K tbl hdr header ser p rs sh a
+  | .pc, p, rs => some (pcWriteCsv K tbl hdr header ser p rs)
+  | .pcPar n, p, rs => some (pcWriteCsvPar K tbl hdr header ser p rs n)
+
+/-! ### readers -/
+
+/-- format layer of a record reader over a PLAIN byte stream -/
+structure ReadFmt (Line ρ : Type) where
+  lines : Bytes → Option (List Line)
+  blank : Line → Bool
+  de : Line → Option ρ
+
+section readers
+variable {Line ρ : Type}
+
+/-- `read_jsonl_vec` / `read_csv_vec`: `File::open`, `auto_detect_reader(f, path)`, parse every line -/
+def readVec (K : CodecImpl) (tbl : List CodecEntry) (F : ReadFmt Line ρ) (path : List Char)
+    (file : Bytes) : Option (List ρ) :=
+  (autoReader K tbl path file).bind fun plain =>
+    (F.lines plain).bind (IB.Io.readAll F.blank F.de)
+
+/-- `read_jsonl` / `read_csv` with a path without glob characters: `read_*_vec` then `from_vec` -/
+def readHelper (K : CodecImpl) (tbl : List CodecEntry) (F : ReadFmt Line ρ) (path : List Char)
+    (file : Bytes) : Option (List ρ) :=
+  readVec K tbl F path file
+
+/-- `build_jsonl_shards` / `build_csv_shards`: open, `auto_detect_reader`, count the lines / records,
+    cut `[0, total)` into ranges (`IB.Io.mkRanges`). Returns `(total, ranges)`. -/
+def buildShards (K : CodecImpl) (tbl : List CodecEntry) (F : ReadFmt Line ρ) (path : List Char)
+    (file : Bytes) (per : Nat) : Option (Nat × List (Nat × Nat)) :=
+  (autoReader K tbl path file).bind fun plain =>
+    (F.lines plain).map fun ls => (ls.length, IB.Io.mkRanges ls.length per)
+
+/-- `read_jsonl_range` / `read_csv_range`: the file is opened and passed through
+    `auto_detect_reader` AGAIN, for every range -/
+def readShard (K : CodecImpl) (tbl : List CodecEntry) (F : ReadFmt Line ρ) (path : List Char)
+    (file : Bytes) (s e : Nat) : Option (List ρ) :=
+  (autoReader K tbl path file).bind fun plain =>
+    (F.lines plain).bind fun ls => IB.Io.readRange F.blank F.de ls s e
+
+/-- `read_*_streaming(path, per)` then `collect_seq` (`clone_any`: one range `[0, total)`) or
+    `collect_par` (`split`: one `read_*_range` per shard, concatenated in order; if any shard fails the
+    runner falls back to `clone_any`) -/
+def readStreaming (K : CodecImpl) (tbl : List CodecEntry) (F : ReadFmt Line ρ) (path : List Char)
+    (file : Bytes) (per : Nat) (par : Bool) : Option (List ρ) :=
+  (buildShards K tbl F path file per).bind fun sh =>
+    if par then
+      match sh.2.mapM fun r => readShard K tbl F path file r.1 r.2 with
+      | some parts => some parts.flatten
+      | none => readShard K tbl F path file 0 sh.1
+    else readShard K tbl F path file 0 sh.1
+
+/-- `read_cloud_jsonl_vec`: `get_object`, `Cursor::new(data)`, `auto_detect_reader(cursor, key)` -/
+def readCloud (K : CodecImpl) (tbl : List CodecEntry) (F : ReadFmt Line ρ) (key : List Char)
+    (object : Bytes) : Option (List ρ) :=
+  (autoReader K tbl key object).bind fun plain =>
+    (F.lines plain).bind (IB.Io.readAll F.blank F.de)
+
+/-- glob branch of `read_jsonl` / `read_csv`, and `read_cloud_jsonl_glob`: every matched file / key (in
+    the sorted order `expand_glob` / `expand_cloud_glob` return — C09 / C19) is read by `read_*_vec` /
+    `read_cloud_jsonl_vec` UNDER ITS OWN NAME; first failure → `Err` -/
+def readGlob (K : CodecImpl) (tbl : List CodecEntry) (F : ReadFmt Line ρ)
+    (files : List (List Char × Bytes)) : Option (List ρ) :=
+  (files.mapM fun f => readVec K tbl F f.1 f.2).map List.flatten
+
+/-- the single-file record reader entry points -/
 inductive Reader
-  | raw            -- `auto_detect_reader` used directly
-  | jsonlVec       -- `read_jsonl_vec`
-  | jsonlHelper    -- `read_jsonl` (→ `read_jsonl_vec`)
-  | jsonlStreaming -- `read_jsonl_streaming`: `build_jsonl_shards` (count pass) + `read_jsonl_range` per shard
-  | csvVec         -- `read_csv_vec`
-  | csvHelper      -- `read_csv` (→ `read_csv_vec`)
-  | csvStreaming   -- `read_csv_streaming`: `build_csv_shards` + `read_csv_range`
-  | cloudJsonl     -- `read_cloud_jsonl_vec`
+  | vec                                   -- `read_jsonl_vec` / `read_csv_vec`
+  | helper                                -- `read_jsonl` / `read_csv`
+  | streaming (per : Nat) (par : Bool)    -- `read_*_streaming` + `collect_seq` / `collect_par`
+  | cloud                                 -- `read_cloud_jsonl_vec`
   deriving DecidableEq, Repr
 
-def Writer.all : List Writer :=
-  [.raw, .jsonlVec, .jsonlPar, .csvVec, .csvPar, .pcJsonl, .pcJsonlPar, .pcCsv, .pcCsvPar, .cloudJsonl]
+def Reader.run (K : CodecImpl) (tbl : List CodecEntry) (F : ReadFmt Line ρ) :
+    Reader → List Char → Bytes → Option (List ρ)
+  | .vec, p, f => readVec K tbl F p f
+  | .helper, p, f => readHelper K tbl F p f
+  | .streaming per par, p, f => readStreaming K tbl F p f per par
+  | .cloud, p, f => readCloud K tbl F p f
 
-def Reader.all : List Reader :=
-  [.raw, .jsonlVec, .jsonlHelper, .jsonlStreaming, .csvVec, .csvHelper, .csvStreaming, .cloudJsonl]
+/-- what the entry point computes from an UNCOMPRESSED stream — the format layer alone (C09 proves
+    that all of these equal `readAll`) -/
+def Reader.plain (F : ReadFmt Line ρ) : Reader → Bytes → Option (List ρ)
+  | .streaming per par, plain =>
+    (F.lines plain).bind fun ls =>
+      if par then
+        match IB.Io.splitView F.blank F.de ls per with
+        | some parts => some parts.flatten
+        | none => IB.Io.seqView F.blank F.de ls
+      else IB.Io.seqView F.blank F.de ls
+  | _, plain => (F.lines plain).bind (IB.Io.readAll F.blank F.de)
 
-/-- the bytes an entry point stores under `path` when its format layer produced `plain`.
-    For the parallel writers `plain` is the in-order concatenation of the shard buffers. -/
-def store (K : CodecImpl) (tbl : List CodecEntry) : Writer → List Char → Bytes → Bytes
-  | .raw, p, x => autoWriter K tbl p x
-  | .jsonlVec, p, x => autoWriter K tbl p x
-  | .jsonlPar, p, x => autoWriter K tbl p x      -- shards are plain temp files; the final file is wrapped
-  | .csvVec, p, x => autoWriter K tbl p x
-  | .csvPar, p, x => autoWriter K tbl p x        -- buffers are plain; the final file is wrapped
-  | .pcJsonl, p, x => autoWriter K tbl p x
-  | .pcJsonlPar, p, x => autoWriter K tbl p x
-  | .pcCsv, p, x => autoWriter K tbl p x
-  | .pcCsvPar, p, x => autoWriter K tbl p x
-  | .cloudJsonl, p, x => cloudWriter K p x
+end readers
 
-/-- the plain bytes an entry point hands to its format layer when `file` is stored under `path`.
-    The streaming readers open and decode the file once to count and once more per shard. -/
-def load (K : CodecImpl) (tbl : List CodecEntry) : Reader → List Char → Bytes → Option Bytes
-  | .raw, p, f => autoReader K tbl p f
-  | .jsonlVec, p, f => autoReader K tbl p f
-  | .jsonlHelper, p, f => autoReader K tbl p f
-  | .jsonlStreaming, p, f => (autoReader K tbl p f).bind (fun _ => autoReader K tbl p f)
-  | .csvVec, p, f => autoReader K tbl p f
-  | .csvHelper, p, f => autoReader K tbl p f
-  | .csvStreaming, p, f => (autoReader K tbl p f).bind (fun _ => autoReader K tbl p f)
-  | .cloudJsonl, p, f => autoReader K tbl p f
+/-- any record writer entry point together with its format-layer parameters -/
+inductive AnyWriter (ρ : Type)
+  | jsonl (w : JWriter) (ser : ρ → Bytes)
+  | csv (w : CWriter) (hdr : Bool) (header : Bytes) (ser : ρ → Bytes)
 
-/-- record level: abstract serialiser / parser of the format layer -/
-def writeRecs {ρ : Type} (K : CodecImpl) (tbl : List CodecEntry) (ser : List ρ → Bytes)
-    (w : Writer) (path : List Char) (rs : List ρ) : Bytes :=
-  store K tbl w path (ser rs)
+/-- the bytes the entry point stores under `path` -/
+def AnyWriter.run {ρ : Type} (K : CodecImpl) (tbl : List CodecEntry) :
+    AnyWriter ρ → List Char → List ρ → Option Bytes
+  | .jsonl w ser, p, rs => w.run K tbl ser p rs
+  | .csv w hdr header ser, p, rs => w.run K tbl hdr header ser p rs
 
-def readRecs {ρ : Type} (K : CodecImpl) (tbl : List CodecEntry) (de : Bytes → Option (List ρ))
-    (r : Reader) (path : List Char) (file : Bytes) : Option (List ρ) :=
-  (load K tbl r path file).bind de
+/-- the plain serialisation of the records: what the SEQUENTIAL writer of the format emits -/
+def AnyWriter.plainOf {ρ : Type} : AnyWriter ρ → List ρ → Bytes
+  | .jsonl _ ser, rs => jsonlPlain ser rs
+  | .csv _ hdr header ser, rs => csvPlain hdr header ser rs
+
+/-! ### a concrete format layer (driver, non-vacuity examples): a record = the bytes of one line -/
+
+/-- split at `\n`; a final unterminated segment counts iff it is non-empty (`cur` reversed) -/
+def splitNlAux : Bytes → Bytes → List Bytes
+  | cur, [] => if cur.isEmpty then [] else [cur.reverse]
+  | cur, b :: bs => if b = 10 then cur.reverse :: splitNlAux [] bs else splitNlAux (b :: cur) bs
+
+def splitNl (bytes : Bytes) : List Bytes := splitNlAux [] bytes
+
+def blankBytes (l : Bytes) : Bool := l.all fun b => (decide (9 ≤ b) && decide (b ≤ 13)) || b == 32
+
+/-- JSONL: lines, blank lines skipped, every line is a record -/
+def lineJsonl : ReadFmt Bytes Bytes := ⟨fun b => some (splitNl b), blankBytes, some⟩
+
+/-- CSV: records = lines after the optional header, none skipped -/
+def lineCsv (hdr : Bool) : ReadFmt Bytes Bytes :=
+  ⟨fun b => some (IB.Io.csvBody hdr (splitNl b)), fun _ => false, some⟩
+
+/-- CSV writer side: a record / the header with its terminator -/
+def withNl (l : Bytes) : Bytes := l ++ [10]
 
 /-! ## the specification: true format signatures
 
@@ -231,14 +476,43 @@ def cloudWriter (K : CodecImpl) (key : List Char) (plain : Bytes) : Bytes :=
   | some n => K.compress n plain
   | none => plain
 
-/-- pinned entry points: the two free parallel writers (and `PCollection::write_jsonl_par`, which
-    calls one of them) wrote the concatenated shard bytes straight into the final file. -/
-def store (K : CodecImpl) (tbl : List CodecEntry) : Writer → List Char → Bytes → Bytes
-  | .jsonlPar, _, x => x
-  | .csvPar, _, x => x
-  | .pcJsonlPar, _, x => x
-  | .cloudJsonl, p, x => cloudWriter K p x
-  | w, p, x => IB.Compression.store K tbl w p x
+/-- pinned `auto_detect_reader`: ONE `fill_buf()` of a `BufReader` over the source itself decides -/
+def readerCodecSrc (tbl : List CodecEntry) (path : List Char) (s : Src) : Option CodecEntry :=
+  match detectExt tbl path with
+  | some c => some c
+  | none => detectMagic tbl (s.read bufCap).1
+
+def autoReaderSrc (K : CodecImpl) (tbl : List CodecEntry) (path : List Char) (s : Src) : Option Bytes :=
+  match readerCodecSrc tbl path s with
+  | some c => K.decompress c.name s.data
+  | none => some s.data
+
+/-- pinned `write_jsonl_par`: empty data → `File::create(path)` only (a 0-byte file); otherwise the
+    part files were copied into a bare `File::create(path)` — the compression layer was never involved -/
+def writeJsonlPar {ρ : Type} (ser : ρ → Bytes) (rs : List ρ) (shards : Option Nat) (auto : Nat) : Option Bytes :=
+  if rs.length = 0 then some []
+  else (IB.Io.parWriteWith IB.Io.jsonlShardBounds rs shards auto).map fun parts =>
+    (parts.map (jsonlPlain ser)).flatten
+
+/-- pinned `write_csv_par`: the buffers were written into a bare `File::create(path)` -/
+def writeCsvPar {ρ : Type} (hdr : Bool) (header : Bytes) (ser : ρ → Bytes) (rs : List ρ)
+    (shards : Option Nat) (auto : Nat) : Option Bytes :=
+  if rs.length = 0 then some []
+  else (IB.Io.parWriteCsvParts hdr header ser rs shards auto).map fun bufs => (bufs.map List.flatten).flatten
+
+/-- pinned writer entry points: the two free parallel writers (and `PCollection::write_jsonl_par`, which
+    calls one of them) and the cloud writer differ from the current code -/
+def JWriter.run {ρ : Type} (K : CodecImpl) (tbl : List CodecEntry) (ser : ρ → Bytes) :
+    JWriter → List Char → List ρ → Option Bytes
+  | .par sh a, _, rs => writeJsonlPar ser rs sh a
+  | .pcPar sh a, _, rs => writeJsonlPar ser rs sh a
+  | .cloud, p, rs => some (cloudWriter K p (jsonlPlain ser rs))
+  | w, p, rs => IB.Compression.JWriter.run K tbl ser w p rs
+
+def CWriter.run {ρ : Type} (K : CodecImpl) (tbl : List CodecEntry) (hdr : Bool) (header : Bytes)
+    (ser : ρ → Bytes) : CWriter → List Char → List ρ → Option Bytes
+  | .par sh a, _, rs => writeCsvPar hdr header ser rs sh a
+  | w, p, rs => IB.Compression.CWriter.run K tbl hdr header ser w p rs
 
 end Legacy
 
